@@ -23,7 +23,7 @@ def fsm? : String → Option Fsm
 def fault? : String → Option Fault
   | "badMarker" => some .badMarker | "badLength" => some .badLength | "tooLong" => some .tooLong
   | "unknownType" => some .unknownType | "kaLen20" => some .kaLen | "rrBadLen" => some .rrLen
-  | "notifBadLen" => some .notifLen | "openShort" => some .openShort
+  | "openShort" => some .openShort
   | "openVersion" => some .openVersion | "openOptParam" => some .openOptParam
   | "updAttrLen" => some .updAttrLen | "updNlri" => some .updNlri
   | _ => none
@@ -41,7 +41,7 @@ def msg? (k : String) : Option Msg :=
   | "keepalive" => some .keepalive
   | "update" | "updMissing" | "updAsPath" => some .update
   | "refresh" => some .refresh
-  | "notification" => some .notification
+  | "notification" | "notifBadLen" => some .notification
   | "operational" => some .operational
   | _ =>
     match fault? k, sem? k with
